@@ -2,7 +2,9 @@ package otto
 
 import (
 	"math"
+	"math/big"
 	"strconv"
+	"strings"
 
 	"golang.org/x/text/language"
 	"golang.org/x/text/message"
@@ -56,10 +58,35 @@ func builtinNumberToFixed(call FunctionCall) Value {
 	if call.This.IsNaN() {
 		return stringValue("NaN")
 	}
-	if value := call.This.float64(); math.Abs(value) >= 1e21 {
+	value := call.This.float64()
+	if math.Abs(value) >= 1e21 {
 		return stringValue(floatToString(value, 64))
 	}
-	return stringValue(strconv.FormatFloat(call.This.float64(), 'f', int(precision), 64))
+	return stringValue(numberToFixed(value, int(precision)))
+}
+
+// numberToFixed formats a finite value with the given number of fraction digits
+// as ES5 15.7.4.5 prescribes: n is the integer for which n / 10^digits - value is
+// as close to zero as possible and the larger n if there are two such n
+// (strconv.FormatFloat rounds such ties to even instead). Negative zero has no sign.
+func numberToFixed(value float64, digits int) string {
+	sign := ""
+	if value < 0 {
+		sign = "-"
+		value = -value
+	}
+	// n = floor(value * 10^digits + 1/2), computed exactly.
+	scaled := new(big.Rat).SetFloat64(value)
+	scaled.Mul(scaled, new(big.Rat).SetInt(new(big.Int).Exp(big.NewInt(10), big.NewInt(int64(digits)), nil)))
+	scaled.Add(scaled, big.NewRat(1, 2))
+	n := new(big.Int).Quo(scaled.Num(), scaled.Denom()).String()
+	if digits == 0 {
+		return sign + n
+	}
+	if len(n) <= digits {
+		n = strings.Repeat("0", digits+1-len(n)) + n
+	}
+	return sign + n[:len(n)-digits] + "." + n[len(n)-digits:]
 }
 
 func builtinNumberToExponential(call FunctionCall) Value {
